@@ -290,42 +290,47 @@ def check_ctx(ctx, rec, path, bad, stats, exiting=False):
             check_ctx(c, sub, path + ["opens%d" % i], bad, stats)
     elif t == "stack":
         stats["stacks"] = stats.get("stacks", 0) + 1
-        kids = list(ctx.children)
-        if len(kids) != len(rec.regs):
-            bad.append({"kind": "exit_stack_children_count", "path": path, "got": len(kids), "exp": len(rec.regs),
-                        "descs": [getattr(k, "description", None) for k in kids]})
-            return
-        kinds = set()
-        for i, (k, (kind, payload)) in enumerate(zip(kids, rec.regs)):
-            kinds.add(kind)
-            p = path + ["reg%d:%s" % (i, kind)]
-            if not isinstance(k, Context):
-                bad.append({"kind": "exit_stack_child_not_a_context", "path": p})
-                continue
-            if bool(k.is_async) != (kind in ASYNC_KINDS):
-                bad.append({"kind": "exit_stack_child_is_async", "path": p, "got": k.is_async})
-            d = k.description or ""
-            if not any(m in d for m in DESC[kind]):
-                bad.append({"kind": "exit_stack_child_description", "path": p, "got": d, "want_one_of": DESC[kind]})
-            if isinstance(payload, Rec):
-                # description is composed by the glue; obj must be the registered manager, unfolded recursively
-                if k.obj is not payload.obj:
-                    bad.append({"kind": "exit_stack_child_obj", "path": p, "got": repr(k.obj)[:60]})
-                else:
-                    sub_ctx = Context(obj=k.obj, is_async=payload.node["async"], inner_stack=k.inner_stack,
-                                      children=k.children)
-                    check_ctx(sub_ctx, payload, p, bad, stats)
-            elif kind in ("push_fn", "push_async_exit_fn"):
-                if k.obj is not payload:
-                    bad.append({"kind": "exit_stack_child_obj", "path": p, "got": repr(k.obj)[:60]})
-            elif kind in ("push_method", "push_async_exit_method"):
-                if k.obj is not payload:
-                    bad.append({"kind": "exit_stack_child_obj_not_method_instance", "path": p, "got": repr(k.obj)[:60]})
-            else:  # callback kinds: a wrapper whose __wrapped__ is the callback
-                if getattr(k.obj, "__wrapped__", None) is not payload:
-                    bad.append({"kind": "exit_stack_child_obj_not_callback_wrapper", "path": p, "got": repr(k.obj)[:60]})
-        stats["max_regs"] = max(stats.get("max_regs", 0), len(rec.regs))
-        stats["reg_kinds"] = max(stats.get("reg_kinds", 0), len(kinds))
+        check_stack_children(ctx, rec.regs, path, bad, stats)
+
+
+def check_stack_children(ctx, regs, path, bad, stats):
+    """ctx.children must be exactly one Context per entry of `regs` (the callbacks still registered)."""
+    kids = list(ctx.children)
+    if len(kids) != len(regs):
+        bad.append({"kind": "exit_stack_children_count", "path": path, "got": len(kids), "exp": len(regs),
+                    "descs": [getattr(k, "description", None) for k in kids]})
+        return
+    kinds = set()
+    for i, (k, (kind, payload)) in enumerate(zip(kids, regs)):
+        kinds.add(kind)
+        p = path + ["reg%d:%s" % (i, kind)]
+        if not isinstance(k, Context):
+            bad.append({"kind": "exit_stack_child_not_a_context", "path": p})
+            continue
+        if bool(k.is_async) != (kind in ASYNC_KINDS):
+            bad.append({"kind": "exit_stack_child_is_async", "path": p, "got": k.is_async})
+        d = k.description or ""
+        if not any(m in d for m in DESC[kind]):
+            bad.append({"kind": "exit_stack_child_description", "path": p, "got": d, "want_one_of": DESC[kind]})
+        if isinstance(payload, Rec):
+            # description is composed by the glue; obj must be the registered manager, unfolded recursively
+            if k.obj is not payload.obj:
+                bad.append({"kind": "exit_stack_child_obj", "path": p, "got": repr(k.obj)[:60]})
+            else:
+                sub_ctx = Context(obj=k.obj, is_async=payload.node["async"], inner_stack=k.inner_stack,
+                                  children=k.children)
+                check_ctx(sub_ctx, payload, p, bad, stats)
+        elif kind in ("push_fn", "push_async_exit_fn"):
+            if k.obj is not payload:
+                bad.append({"kind": "exit_stack_child_obj", "path": p, "got": repr(k.obj)[:60]})
+        elif kind in ("push_method", "push_async_exit_method"):
+            if k.obj is not payload:
+                bad.append({"kind": "exit_stack_child_obj_not_method_instance", "path": p, "got": repr(k.obj)[:60]})
+        else:  # callback kinds: a wrapper whose __wrapped__ is the callback
+            if getattr(k.obj, "__wrapped__", None) is not payload:
+                bad.append({"kind": "exit_stack_child_obj_not_callback_wrapper", "path": p, "got": repr(k.obj)[:60]})
+    stats["max_regs"] = max(stats.get("max_regs", 0), len(regs))
+    stats["reg_kinds"] = max(stats.get("reg_kinds", 0), len(kinds))
 
 
 def run_tree(req):
@@ -473,6 +478,32 @@ def run_exiting(req):
                 obs.append({"kind": "exiting_generator_frame_not_in_main_series", "node": n["id"],
                             "frames": [f.funcname for f in st.frames]})
                 break
+    # an exit stack on the path has popped the entry that is exiting (and everything registered after it); the
+    # entries registered BEFORE it are still registered, not exiting, and must be shown fully unfolded
+    for parent, child in zip(path[:-1], path[1:]):
+        if parent["t"] != "stack":
+            continue
+        prec = b.recs[parent["id"]]
+        ctx = None
+        if parent is path[0]:
+            ctx = f0.contexts[-1] if f0.contexts else None
+        else:
+            for f in st.frames:
+                for c in f.contexts:
+                    if c.obj is prec.obj:
+                        ctx = c
+        if ctx is None:
+            continue   # this stack's own context is not observable from here (it was registered in another stack)
+        idx = None
+        for i, (kind, payload) in enumerate(prec.regs):
+            if isinstance(payload, Rec) and payload.node["id"] == child["id"]:
+                idx = i
+        if idx is None:
+            continue
+        stats["exiting_stack_children_checked"] = stats.get("exiting_stack_children_checked", 0) + 1
+        bad = []
+        check_stack_children(ctx, prec.regs[:idx], ["exiting-stack", parent["id"]], bad, stats)
+        obs.extend(bad[:3])
     # the exit method of the chosen node is the innermost harness frame
     names = [f.funcname for f in st.frames]
     want = "__aexit__" if target["async"] else "__exit__"
